@@ -56,6 +56,17 @@ def materialise(case):
                 if new not in ids and not any(new in o or o in new for o in ids):
                     break
             ids.add(new)
+            # own stream: ids as files and databases produce them - an accession with its version ("AB12345.1", the record
+            # then also knows its sequence_version), or characters that mean something to a formatting routine
+            ri = gen.rng_for(case["seed"], PROP, "id-shapes", case["i"], new)
+            u = ri.random()
+            if u < 0.15:
+                ver = ri.choice([1, 2, 3])
+                new = "%s.%d" % (new[:13], ver)
+                if ri.random() < 0.8:
+                    s.setdefault("annotations", {})["sequence_version"] = ver
+            elif u < 0.27:
+                new = new[:10] + ri.choice(["{}", "{0}", "{kan}", "%s", "%(x)s", "{", "}", "$x", "\\1"])
             for f in s["features"]:
                 f["quals"]["uid"] = [f["quals"]["uid"][0].replace(s["id"] + ".", new + ".")]
             s["id"] = s["name"] = new
